@@ -392,7 +392,11 @@ func (d *DFS) Next() bool {
 	if d.first {
 		d.first = false
 	} else {
-		// advance: last position with room to increment
+		// advance: last position with room to increment (the previous run may have made
+		// fewer decisions than the prefix holds when the code under test is not deterministic)
+		if len(d.prefix) > d.pos {
+			d.prefix = d.prefix[:d.pos]
+		}
 		i := len(d.prefix) - 1
 		for i >= len(d.Fixed) && d.prefix[i]+1 >= d.widths[i] {
 			i--
